@@ -342,6 +342,12 @@ def enum_twins(tier, seed):
             if space > 2:
                 add(make_enum("E", n, full, "true", syntax=syn), make_enum("E", n, full[1:], "true", syntax=syn),
                     "claims-exhaustive-but-is-not", "exhaustive = true with value 0 missing (syntax %s)" % syn)
+            if space > 1:
+                # the same claims with `exhaustive` written before the storage type
+                add(dict(make_enum("E", n, full, "true", syntax=syn), args_rev=True), dict(make_enum("E", n, full[:-1], "true", syntax=syn), args_rev=True),
+                    "claims-exhaustive-but-is-not", "exhaustive = true with 2^N-1 variants, exhaustive written first (syntax %s)" % syn)
+                add(dict(make_enum("E", n, full[:-1], "false", syntax=syn), args_rev=True), dict(make_enum("E", n, full, "false", syntax=syn), args_rev=True),
+                    "is-exhaustive-but-not-declared", "exhaustive = false with all 2^N variants, exhaustive written first (syntax %s)" % syn)
             # exhaustive = false / omitted with all values present
             add(make_enum("E", n, full[:-1] or [0], "false", syntax=syn) if space > 1 else make_enum("E", n, [0], "false", syntax=syn), make_enum("E", n, full, "false", syntax=syn),
                 "is-exhaustive-but-not-declared", "exhaustive = false with all 2^N variants (syntax %s)" % syn)
